@@ -7,6 +7,12 @@ Theorem C15_streaming_path : streamingPath = ["/tcp-over-websocket-bridge/35218c
 Proof. reflexivity. Qed.
 Print Assumptions C15_streaming_path.
 
+(* the bridge sets no deadline, read limit or socket option on a bridged connection (the models of Read, Write and of the
+   copy loops have no step that drops or truncates data by itself): regenerated from the source of the package and of both binaries *)
+Theorem C15_no_limits : bridgeLimitCalls = [].
+Proof. reflexivity. Qed.
+Print Assumptions C15_no_limits.
+
 (* every byte string (all 256 values, any length) survives the hex framing *)
 Theorem C15_hex_roundtrip : forall bs, Forall (fun b => b < 256) bs -> hex_decode (hex_encode bs) = Some bs.
 Proof. exact hex_roundtrip. Qed.
